@@ -353,7 +353,10 @@ def gen_tasks(ctx, docs, quick):
             if name.startswith("tiny"):
                 pass        # tiny documents: every single fault (they are the ones that keep cross-record checks consistent)
             elif len(faults) > k:
-                faults = rng.sample(faults, k)
+                # deletions of single header lines are always tried (a missing record is the classic way into parser internals)
+                must = [f for f in faults if f[0].startswith("del_line:") and int(f[0].split(":")[1]) < 16]
+                rest = [f for f in faults if f not in must]
+                faults = must + rng.sample(rest, max(0, min(len(rest), k - len(must))))
             faults.insert(0, ("valid", text))
             for d, t in faults:
                 tasks.append([(fmt, name, d), fmt, t])
